@@ -52,6 +52,11 @@ def SearchTree : Node α → Prop
     l.SearchTree ∧ r.SearchTree ∧ (∀ x ∈ OMap.keys l.toList, x < k) ∧
     (∀ y ∈ OMap.keys r.toList, k ≤ y) ∧ k ∈ OMap.keys r.toList
 
+/-- `P` holds at every node of the tree (root, inner nodes, leaves) -/
+def Forall (P : Node α → Prop) : Node α → Prop
+  | leaf k v => P (leaf k v)
+  | inner k h s l r => P (inner k h s l r) ∧ l.Forall P ∧ r.Forall P
+
 end Node
 
 namespace Tree
